@@ -7,7 +7,7 @@ LayoutsSmall == {"XY", "XYZM", "L5", "No"}
 LayoutsAll == {"No", "XY", "XYZ", "XYM", "XYZM", "L5", "L6"}
 OpsC01 == {"setcoords", "newflat", "push", "push2", "clone", "reverse", "swap", "setlayout"}
 OpsC02 == {"push", "push2", "pushbad", "reverse", "swap", "clone", "setlayout"}
-OpsC16 == {"clone", "push", "reverse", "swap", "write", "wend", "transform", "srid", "reserve", "setcoords"}
+OpsC16 == {"clone", "push", "reverse", "swap", "write", "wend", "transform", "srid", "reserve", "setcoords", "newflat"}
 TailNone == {}
 TailC01 == {"push"}
 TailC16 == {"push", "wend", "write", "transform", "reverse"}
